@@ -4,6 +4,7 @@ import OxiaVerif.Facts
 import OxiaVerif.Props.C11Defs
 import OxiaVerif.Model.SKV
 import OxiaVerif.Model.Wal
+import OxiaVerif.Model.Codec
 
 /-! Line-protocol dispatch: one operation line in, one output line out. -/
 namespace Oxia.Driver
@@ -157,6 +158,55 @@ def stepWal (st : State) (toks : List String) : State × String :=
   | ["wal.readrev"] => (st, showEntries st.wal.readRev)
   | _ => (st, "bad-op")
 
+def codecCfg (ver : String) : Codec.Cfg :=
+  { v2 := ver != "1", overflowSafe := Facts.codecSizeCheckOverflowSafe, readGuarded := Facts.codecReadIntGuarded }
+
+def showRecovered : Codec.Res Codec.Recovered → String
+  | .ok r => "ok idx=" ++ String.intercalate "," (r.index.map toString) ++ " crc=" ++ toString r.lastCrc ++
+      " off=" ++ toString r.newFileOffset ++ " n=" ++ toString r.count
+  | .errOutOfBounds => "err:oob"
+  | .errEmptyPayload => "err:empty"
+  | .errDataCorrupted => "err:corrupt"
+  | .panic => "panic"
+
+def stepCodec (st : State) (toks : List String) : State × String :=
+  match toks with
+  | "cx.recover" :: ver :: buf :: start :: uf :: _ =>
+    match Hex.decode buf, start.toNat?, uf.toInt? with
+    | some buf, some start, some uf =>
+      let u : Option Nat := if uf < 0 then none else some uf.toNat
+      (st, showRecovered (Codec.recoverIndex (codecCfg ver) Codec.oxiaCrc buf start u))
+    | _, _, _ => (st, "bad-op")
+  | "cx.read" :: ver :: buf :: start :: _ =>
+    match Hex.decode buf, start.toNat? with
+    | some buf, some start =>
+      (st, match Codec.readRecord (codecCfg ver) Codec.oxiaCrc buf start with
+        | .ok p => "ok " ++ Hex.encode p
+        | .errOutOfBounds => "err:oob"
+        | .errEmptyPayload => "err:empty"
+        | .errDataCorrupted => "err:corrupt"
+        | .panic => "panic")
+    | _, _ => (st, "bad-op")
+  | "cx.encode" :: ver :: prev :: payload :: _ =>
+    match prev.toNat?, Hex.decode payload with
+    | some prev, some payload =>
+      let (b, c) := Codec.encodeRecord (codecCfg ver) Codec.oxiaCrc prev payload
+      (st, Hex.encode b ++ " " ++ toString (if ver == "1" then 0 else c))
+    | _, _ => (st, "bad-op")
+  | "cw.reopen" :: buf :: uf :: _ =>
+    -- the WAL opened on a single v2 segment image: `recoverWal` -> `newReadWriteSegment` -> `RecoverIndex`
+    match Hex.decode buf, uf.toInt? with
+    | some buf, some uf =>
+      let u : Option Nat := if uf < 0 then none else some uf.toNat
+      (st, match Codec.recoverIndex (codecCfg "2") Codec.oxiaCrc buf 0 u with
+        | .ok r => "ok last=" ++ toString ((r.count : Int) - 1)
+        | .errOutOfBounds => "err:oob"
+        | .errEmptyPayload => "err:empty"
+        | .errDataCorrupted => "err:corrupt"
+        | .panic => "panic")
+    | _, _ => (st, "bad-op")
+  | _ => (st, "bad-op")
+
 def step (st : State) (line : String) : State × String :=
   let toks := (line.splitOn " ").filter (· ≠ "")
   match toks with
@@ -166,6 +216,7 @@ def step (st : State) (line : String) : State × String :=
     if t.startsWith "key." then stepKey st toks
     else if t.startsWith "kv." then stepKv st toks
     else if t.startsWith "wal." then stepWal st toks
+    else if t.startsWith "cx." || t.startsWith "cw." then stepCodec st toks
     else (st, "bad-op")
 
 end Oxia.Driver
